@@ -47,6 +47,7 @@ type World struct {
 	phiVisiting map[*ssa.Phi]bool
 	// CanonI: inline simple pure helpers while rendering
 	inlineHelpers bool
+	noHelperAtoms bool
 	lastRetBlocks map[ssa.Value]*ssa.BasicBlock // returnedValues: the block each value was returned from
 	phiSubst      map[*ssa.Phi]ssa.Value        // branch markers: phis print as the value of the edge the path took
 	evmAtomic     bool                          // A-4 holds: EVMCtrler.ExecuteTrx reverts to its snapshot on every failure
